@@ -46,7 +46,7 @@ class C09(Check):
     reference_models = ["byte-array file model (this file)", "ref/refext4.py read_file()/check()"]
 
     def budget(self, tier):
-        return {"runs": 3000, "wall_s": 85} if tier == "quick" else {"runs": 60000, "wall_s": 1500}
+        return {"runs": 3000, "wall_s": 85} if tier == "quick" else {"runs": 40000, "wall_s": 1500}
 
     def generate(self, rng, tier):
         big = rng.chance(0.2)       # (gen_config never picks bigalloc for small filesystems)
@@ -141,6 +141,11 @@ class C09(Check):
             # bigalloc is its own body of code in the library's allocation and mapping paths
             for v in o.violations:
                 v.key += "|bigalloc"
+        if spec.get("fill"):
+            # the filler file is written until the filesystem is full: what a write that ran into ENOSPC leaves behind
+            for v in o.violations:
+                if "|after_close|e2fsck:" in v.key:
+                    v.key += "|fill"
         return o
 
     def execute_inner(self, spec, wd):
